@@ -3,6 +3,8 @@ package gosym
 import (
 	"fmt"
 	"strings"
+
+	"verif/engine/smt"
 )
 
 // T3MapKeyRange: the code generated for an integer map key (_OP_map_key_u32 etc.) accepts the
@@ -107,3 +109,6 @@ type AsmOp struct {
 	I  int    `json:"i"`
 	S  []int  `json:"s"`
 }
+
+// newBoolJunk: an arbitrary truth value (undefined flag bits).
+func (x *Exec) newBoolJunk() *smt.Term { return x.junk(0) }
